@@ -257,9 +257,14 @@ def gen_arg(tier, rng):
     for _ in range(count(tier, 2, 20)):
         yield from _reduce_inputs(["argmax", "argmin"], SHAPES, rng, keepdims=False, tuples=False)
     for fn in ("argmax", "argmin"):     # explicit ties
-        for vals in ([3, 1, 3, 0], [0, 1, 0, 1], [2, 2, 2], [[1, 5], [5, 1]], [1.5, -0.5, 1.5, -0.5]):
+        for vals in ([3, 1, 3, 0], [0, 1, 0, 1], [2, 2, 2], [[1, 5], [5, 1]], [1.5, -0.5, 1.5, -0.5],
+                     [4, 4], [[7, 7]], [[0], [0]], [[[2, 2]]], [5], [[1, 1], [1, 1]]):      # arrays of exactly two (equal) elements, size 1, all equal
             yield {"fn": fn, "args": [{"array": vals, "dtype": "float64" if isinstance(vals[0], float) else "int64", "poly": True}],
                    "kwargs": {}}
+            nd = numpy.ndim(vals)
+            for ax in range(-nd, nd):
+                yield {"fn": fn, "args": [{"array": vals, "dtype": "float64" if isinstance(vals[0], float) else "int64", "poly": True}],
+                       "kwargs": {"axis": ax}}
 
 
 def gen_count(tier, rng):
